@@ -1174,12 +1174,19 @@ impl ConfigState {
                 .map_err(|decode_error| StateError::RemoveCertificate(decode_error.to_string()))?,
         );
 
-        if let Some(index) = self.certificates.get_mut(&remove.address.into()) {
+        let address: SocketAddr = remove.address.into();
+        if let Some(index) = self.certificates.get_mut(&address) {
             index.remove(&fingerprint);
             debug_assert!(
                 !index.contains_key(&fingerprint),
                 "remove_certificate must evict the fingerprint when the address is known"
             );
+            // An address without certificates has no entry: `generate_requests`
+            // cannot reproduce an empty bucket, so keeping one would make the
+            // state differ from its own replay.
+            if index.is_empty() {
+                self.certificates.remove(&address);
+            }
         }
 
         Ok(())
@@ -1314,6 +1321,10 @@ impl ConfigState {
             !tcp_frontends.iter().any(|f| f.address == remove_address),
             "remove_tcp_frontend must leave no frontend at the removed address"
         );
+        // A cluster without TCP frontends has no entry (see `remove_certificate`).
+        if tcp_frontends.is_empty() {
+            self.tcp_fronts.remove(&front_to_remove.cluster_id);
+        }
         Ok(())
     }
 
@@ -1352,6 +1363,10 @@ impl ConfigState {
         udp_frontends.retain(|front| front.address != front_to_remove.address.into());
         if udp_frontends.len() == len {
             return Err(StateError::NoChange);
+        }
+        // A cluster without UDP frontends has no entry (see `remove_certificate`).
+        if udp_frontends.is_empty() {
+            self.udp_fronts.remove(&front_to_remove.cluster_id);
         }
         Ok(())
     }
@@ -1428,6 +1443,10 @@ impl ConfigState {
                 .any(|b| b.backend_id == backend.backend_id && b.address == remove_address),
             "remove_backend must leave no backend matching (backend_id, address)"
         );
+        // A cluster without backends has no entry (see `remove_certificate`).
+        if backend_list.is_empty() {
+            self.backends.remove(&backend.cluster_id);
+        }
         Ok(())
     }
 
